@@ -423,15 +423,18 @@ def impl_roundtrip(case):
     G, writer, fmt = case["G"], case["writer"], case["fmt"]
     out = {"reads": {}, "adapters": {}}
     store = zarr.storage.MemoryStore()
+    kw = {"axis_names": list(case["axes"])} if case.get("axes") else {}
     try:
         if writer == "nx":
-            geff.write(build_nx(G), store, zarr_format=fmt)
+            geff.write(build_nx(G), store, zarr_format=fmt, **kw)
         elif writer == "rx":
             g, nid = build_rx(G, case.get("layout", {}))
+            for k in case.get("layout", {}).get("drop_map", []):  # malformed: an index without an id
+                nid.pop(sorted(nid)[k % len(nid)], None) if nid else None
             if nid is None:
-                geff.write(g, store, zarr_format=fmt)
+                geff.write(g, store, zarr_format=fmt, **kw)
             else:
-                geff.write(g, store, zarr_format=fmt, node_id_dict=nid)
+                geff.write(g, store, zarr_format=fmt, node_id_dict=nid, **kw)
         else:
             raise AssertionError(writer)
     except Exception as e:  # noqa: BLE001
@@ -444,15 +447,18 @@ def impl_roundtrip(case):
         out["mem"] = _exc(e)
     nn, en = _prop_names(G)
     for reader in case.get("readers", ["nx", "rx"]):
+        name = {"nx": "networkx", "rx": "rustworkx", "sg": "spatial-graph"}[reader]
         try:
-            g2, md = geff.read(store, backend={"nx": "networkx", "rx": "rustworkx"}[reader])
+            g2, md = geff.read(store, backend=name)
             if reader == "nx":
                 out["reads"][reader] = obs_nx(g2)
-            else:
+            elif reader == "rx":
                 inv = {v: k for k, v in g2.attrs["to_rx_id_map"].items()}
                 out["reads"][reader] = obs_rx(g2, inv)
+            else:
+                out["reads"][reader] = obs_sg(g2, [a.name for a in (md.axes or [])])
             try:
-                ad = get_backend({"nx": "networkx", "rx": "rustworkx"}[reader]).graph_adapter(g2)
+                ad = get_backend(name).graph_adapter(g2)
                 out["adapters"][reader] = obs_adapter(ad, md, nn, en)
             except Exception as e:  # noqa: BLE001
                 out["adapters"][reader] = _exc(e)
@@ -479,9 +485,13 @@ def impl_construct(case):
                 out["graphs"][b] = obs_nx(g)
             elif b == "rx":
                 mp = g.attrs["to_rx_id_map"]
-                out["graphs"][b] = obs_rx(g, {v: k for k, v in mp.items()})
                 out["rx_raw"] = {"map": sorted([str(int(k)), int(v)] for k, v in mp.items()),
                                  "raw": obs_rx(g, None)}
+                inv = {v: k for k, v in mp.items()}
+                if set(inv) >= set(g.node_indices()):
+                    out["graphs"][b] = obs_rx(g, inv)
+                else:  # duplicate geff ids (invalid geff): some index has no id; only the raw view exists
+                    out["graphs"][b] = {"unobservable": "to_rx_id_map is not onto the node indices"}
             else:
                 out["graphs"][b] = obs_sg(g, M["axes"] or [])
             try:
@@ -851,11 +861,11 @@ def gen_mem(rng, nmax=12, sg_domain=False, valid=True):
             extra = [p for p in pool if str(p) not in M["node_ids"]]
             if extra:
                 M["edge_ids"].append([M["node_ids"][0], str(extra[0])])
+                M["edge_props"] = {k: P for k, P in M["edge_props"].items() if P["rows"]}
                 for P in M["edge_props"].values():
-                    P["rows"].append(P["rows"][0] if P["rows"] else [P.get("elem_shape", []), []])
+                    P["rows"].append(P["rows"][0])
                     if P["missing"] is not None:
                         P["missing"].append(False)
-                M["edge_props"] = {k: P for k, P in M["edge_props"].items() if len(P["rows"]) == len(M["edge_ids"])}
         elif mode == "dup-edge" and M["edge_ids"]:
             M["edge_ids"].append(list(M["edge_ids"][0]))
             for P in M["edge_props"].values():
@@ -892,5 +902,602 @@ def sg_warm():
     # the empty-graph signature SgBackend.construct uses when there are no nodes
     extra = [(1, s[1], "float64", s[3], s[4]) for s in SG_SCHEMAS]
     todo = list(SG_SCHEMAS) + [e for e in extra if e not in SG_SCHEMAS]
-    with mp.get_context("fork").Pool(min(8, len(todo))) as pool:
-        return all(pool.map(_warm_one, todo, chunksize=1))
+    with mp.get_context("fork").Pool(min(12, len(todo))) as pool:
+        ok = all(pool.map(_warm_one, todo, chunksize=1))
+    import spatial_graph as sg
+
+    for ndims, nd, pd, na, ea in todo:  # load the cached modules here so that forked workers inherit them
+        nad = dict(na)
+        nad["position"] = f"{pd}[{ndims}]"
+        for directed in (True, False):
+            sg.create_graph(ndims=ndims, node_dtype=nd, node_attr_dtypes=nad, edge_attr_dtypes=dict(ea),
+                            position_attr="position", directed=directed)
+    return ok
+
+
+# ============================================================================ model requests / comparison
+def _strip_mem(M):
+    return {"directed": M["directed"], "node_ids": list(M["node_ids"]), "edge_ids": [list(e) for e in M["edge_ids"]],
+            "node_props": {k: {"dtype": P["dtype"], "varlen": P["varlen"], "rows": P["rows"], "missing": P["missing"]}
+                           for k, P in sorted(M["node_props"].items())},
+            "edge_props": {k: {"dtype": P["dtype"], "varlen": P["varlen"], "rows": P["rows"], "missing": P["missing"]}
+                           for k, P in sorted(M["edge_props"].items())}}
+
+
+def rx_json(G, layout):
+    """the rustworkx graph `build_rx` makes, as the model sees it"""
+    pos = rx_layout(G, layout)
+    attrs = {int(i): a for i, a in G["nodes"]}
+    inv = {p: i for i, p in pos.items()}
+    nslots = (max(inv) + 1) if inv else 0
+    slots = [attrs[inv[s]] if s in inv else None for s in range(nslots)]
+    edges = [[[pos[int(u)], pos[int(v)]], a] for (u, v), a in G["edges"]]
+    nid = None
+    if layout.get("id_map"):
+        nid = {p: i for i, p in pos.items()}
+        for extra in layout.get("extra_map", []):
+            nid.setdefault(int(extra), 999)
+        for k in layout.get("drop_map", []):
+            if nid:
+                nid.pop(sorted(nid)[k % len(nid)], None)
+        nid = [[k, str(v)] for k, v in sorted(nid.items())]
+    return {"directed": G["directed"], "slots": slots, "edges": edges}, nid
+
+
+def rx_model_as_graph(R):
+    """abstract graph of the model's RxGraph JSON, ids through its id_map"""
+    inv = {k: i for i, k in (R["id_map"] or [])} if R["id_map"] is not None else None
+    f = (lambda k: str(k)) if inv is None else (lambda k: inv[k])
+    nodes = [[f(k), a] for k, a in enumerate(R["slots"]) if a is not None]
+    edges = [[[f(e[0][0]), f(e[0][1])], e[1]] for e in R["edges"]]
+    return {"directed": R["directed"], "nodes": nodes, "edges": edges}
+
+
+def sg_json(S):
+    def col(dt, vals):
+        return {"dtype": dt, "varlen": False, "rows": [[[], [v]] for v in vals], "missing": None}
+    return {"directed": S["directed"], "ndims": S["ndims"], "pos_dtype": S["pos_dtype"],
+            "nodes": [n[0] for n in S["nodes"]], "position": [n[1] for n in S["nodes"]],
+            "node_attrs": {k: col(dt, [n[2][k] for n in S["nodes"]]) for k, dt in S["node_attrs"].items()},
+            "edges": [e[0] for e in S["edges"]],
+            "edge_attrs": {k: col(dt, [e[1][k] for e in S["edges"]]) for k, dt in S["edge_attrs"].items()}}
+
+
+def reorder_sg(S, built):
+    """S with nodes / edges in the order (and edge orientation) the built spatial-graph reports"""
+    if not built or "exc" in built:
+        return S
+    nodes = {n[0]: n for n in S["nodes"]}
+    edges = {}
+    for e in S["edges"]:
+        edges[(e[0][0], e[0][1])] = e
+        if not S["directed"]:
+            edges[(e[0][1], e[0][0])] = [[e[0][1], e[0][0]], e[1]]
+    try:
+        return {**S, "nodes": [nodes[i] for i, _ in built["nodes"]],
+                "edges": [edges[(u, v)] for (u, v), _ in built["edges"]]}
+    except KeyError:
+        return S
+
+
+def sg_model_as_graph(R, axes):
+    nodes = []
+    for k, i in enumerate(R["nodes"]):
+        a = {ax: R["position"][k][j] for j, ax in enumerate(axes)}
+        for name, P in R["node_attrs"].items():
+            a[name] = row_value(P, k)
+        nodes.append([i, a])
+    edges = [[list(e), {name: row_value(P, k) for name, P in R["edge_attrs"].items()}] for k, e in enumerate(R["edges"])]
+    return {"directed": R["directed"], "nodes": nodes, "edges": edges}
+
+
+def _same(a, b):
+    return json.dumps(a, sort_keys=True) == json.dumps(b, sort_keys=True)
+
+
+def cmp_outcome(ck, name, case, impl, model, conv=lambda x: x, canonical=True):
+    """compare an implementation observation (value or {"exc":…}) with a model outcome
+    ({"ok":…} | {"exc":…} | {"unmodelled":…}); returns 'unmodelled' / 'agree' / 'disagree'"""
+    if model is None:
+        return "nomodel"
+    if "err" in model:
+        ck.corr_broken(name + ":driver", case, impl, model)
+        return "disagree"
+    if "unmodelled" in model:
+        return "unmodelled"
+    if isinstance(impl, dict) and "exc" in impl:
+        if model.get("exc") == impl["exc"]:
+            return "agree"
+        ck.corr_broken(name, case, impl, model)
+        return "disagree"
+    if "exc" in model:
+        ck.corr_broken(name, case, "returned normally", model)
+        return "disagree"
+    mv = conv(model["ok"])
+    a, b = (canon(impl), canon(mv)) if canonical else (impl, mv)
+    if not _same(a, b):
+        ck.corr_broken(name, case, a, b)
+        return "disagree"
+    return "agree"
+
+
+# ============================================================================ classification of spec failures
+def _ids_mixed(G):
+    ids = [int(i) for i, _ in G["nodes"]]
+    return any(i >= TWO63 for i in ids) and any(i < TWO63 for i in ids)
+
+
+def _big_int_props(G):
+    """names of properties holding an int >= 2^63, with (ragged?, all values large?)"""
+    out = {}
+    for _, a in list(G["nodes"]) + list(G["edges"]):
+        for k, v in a.items():
+            leaves = [v] if v[0] != "a" else v[2]
+            ints = [int(x[1]) for x in leaves if x[0] == "i"]
+            if ints:
+                e = out.setdefault(k, {"big": False, "small": False, "shapes": set()})
+                e["big"] |= any(i >= TWO63 for i in ints)
+                e["small"] |= any(i < TWO63 for i in ints)
+                e["shapes"].add(json.dumps(v[1]) if v[0] == "a" else "")
+    return {k: e for k, e in out.items() if e["big"]}
+
+
+def classify(stage, G, diffs=None, exc=None):
+    """stable key of the class a specification failure belongs to"""
+    big = _big_int_props(G)
+    ragged_big = any(len(e["shapes"]) > 1 for e in big.values())
+    if exc is not None:
+        msg = exc.get("msg", "")
+        if "No Zarr data type" in msg and big:
+            return "C03:ragged-int-values-ge-2^63" if ragged_big else "C03:int-values-ge-2^63-all"
+        if ragged_big and exc["exc"] == "ValueError":
+            return "C03:ragged-int-values-ge-2^63"
+        if exc["exc"] in ("KeyError", "IndexError") and _ids_mixed(G) and "adapter" not in stage:
+            return "C03:ids-mixed-around-2^63"
+        if "adapter:rx" in stage:
+            return "C03:rx-adapter-ignores-id-map"
+        if exc["exc"] == "IndexError" and stage.endswith("sg") and not G["edges"] and G["nodes"]:
+            return "C03:sg-nodes-without-edges"
+        return f"C03:{stage}:raises-{exc['exc']}"
+    cls, text = diffs[0]
+    if cls == "kind" and "kind bool -> int" in text:
+        return "C03:bool-with-missing-becomes-int"
+    if cls in ("kind", "leaf-kind", "value") and ragged_big:
+        return "C03:ragged-int-values-ge-2^63"
+    if cls == "kind" and "kind int -> float" in text and big:
+        return "C03:int-values-ge-2^63-mixed"
+    if cls == "leaf-kind" and big:
+        return "C03:int-values-ge-2^63-mixed"
+    if "adapter:rx" in stage:
+        return "C03:rx-adapter-ignores-id-map"
+    if cls in ("node-ids", "edges", "value", "present-lost", "absent-shown") and _ids_mixed(G) and not stage.startswith(("construct", "dict")):
+        return "C03:ids-mixed-around-2^63"  # rounded ids collide / dangle: attributes move between nodes
+    if cls == "kind" and stage.endswith("sg") and "kind int -> float" in text:
+        return "C03:sg-mixed-axis-dtypes"
+    return f"C03:{stage}:{cls}"
+
+
+def check_obs(ck, stage, case, G, obs):
+    """specification verdict on one observed graph"""
+    if isinstance(obs, dict) and "exc" in obs:
+        ck.fail(classify(stage, G, exc=obs), f"{stage}: {obs['exc']}: {obs.get('msg', '')}", case, obs, "the graph that was written")
+        return False
+    d = diff_graphs(G, obs)
+    if d:
+        ck.fail(classify(stage, G, diffs=d), f"{stage}: {d[0][1]}", case, {"diffs": [x[1] for x in d[:4]]}, "the graph that was written")
+        return False
+    return True
+
+
+def check_dict_props(ck, case, res):
+    """SPECIFICATION of the dict -> array layer: element i is marked missing iff it lacks the
+    property, and a present entry denotes exactly the value (and kind) that was given"""
+    if "exc" in res:
+        G = {"nodes": case["data"], "edges": []}
+        ck.fail(classify("dict_props_to_arr", G, exc=res), f"dict_props_to_arr raised {res['exc']}: {res.get('msg', '')}",
+                case, res, "arrays denoting the given values")
+        return
+    for name in case["names"]:
+        P = res["props"][name]
+        for i, (_, a) in enumerate(case["data"]):
+            miss = P["missing"] is not None and P["missing"][i]
+            if (name not in a) != miss:
+                ck.fail("C03:dict_props_to_arr:missing-mask", f"element {i} of {name!r}: present={name in a} but missing={miss}", case, P, None)
+                return
+            if name in a:
+                got = row_value(P, i)
+                if got != a[name]:
+                    G = {"nodes": case["data"], "edges": []}
+                    d = []
+                    _diff_attrs(f"element {i}", {name: a[name]}, {name: got}, d)
+                    ck.fail(classify("dict_props_to_arr", G, diffs=d), f"dict_props_to_arr: {d[0][1]}", case, P, a[name])
+                    return
+
+
+def gen_dict_case(rng, kinds=KINDS, mixed=False):
+    n = rng.choice([0, 1, 2, 3, 4, 6])
+    names = [f"p{j}" for j in range(rng.randint(1, 3))]
+    data = [[str(i), {}] for i in range(n)]
+    for nm in names:
+        if mixed:
+            pool = ["bool", "int", "float", "bigint", "str", "list", "ragged"]
+            ks = [rng.choice(pool) for _ in range(2)]
+            present = [i for i in range(n) if rng.random() < 0.8]
+            for i in present:
+                data[i][1][nm] = gen_values(rng, rng.choice(ks), 1)[0]
+        else:
+            kind = rng.choice(kinds)
+            present = [i for i in range(n) if rng.random() < rng.choice([1.0, 0.6, 0.2])]
+            for i, v in zip(present, gen_values(rng, kind, len(present))):
+                data[i][1][nm] = v
+    if rng.random() < 0.15:
+        names.append("never_present")
+    return {"data": data, "names": names, "mixed": mixed}
+
+
+def gen_malformed(rng):
+    it = gen_random_graph(rng, nmax=6, kinds=["bool", "int", "float", "str"], idsets=("small", "sparse"))
+    G = it["G"]
+    mode = rng.choice(["neg-id", "huge-id", "neg-and-big-values", "mixed-kinds", "huge-value"])
+    if not G["nodes"]:
+        G["nodes"] = [["0", {}], ["1", {}]]
+    if mode == "neg-id":
+        old = G["nodes"][0][0]
+        G["nodes"][0][0] = "-3"
+        G["edges"] = [[["-3" if x == old else x for x in e[0]], e[1]] for e in G["edges"]]
+    elif mode == "huge-id":
+        old = G["nodes"][-1][0]
+        G["nodes"][-1][0] = str(TWO64 + 5)
+        G["edges"] = [[[str(TWO64 + 5) if x == old else x for x in e[0]], e[1]] for e in G["edges"]]
+    elif mode == "neg-and-big-values":
+        for k, (_, a) in enumerate(G["nodes"]):
+            a["nb"] = ["i", str(-1 if k % 2 else TWO63 + k)]
+        if len(G["nodes"]) < 2:
+            G["nodes"].append(["77", {"nb": ["i", "-1"]}])
+    elif mode == "huge-value":
+        for k, (_, a) in enumerate(G["nodes"]):
+            a["hv"] = ["i", str(TWO64 + k)]
+    else:
+        for k, (_, a) in enumerate(G["nodes"]):
+            a["mk"] = [["b", True], ["i", "2"], ["f", f2h(1.5)]][k % 3] if rng.random() < 0.5 else [["b", False], ["i", "7"]][k % 2]
+    it["tag"] = "malformed:" + mode
+    it["malformed"] = mode
+    return it
+
+
+SPECIAL = [
+    # (tag, expected known-finding key or None, item)
+    ("D2-bool-missing", None, {"G": {"directed": True, "nodes": [["0", {"f": ["b", True]}], ["1", {}], ["2", {"f": ["b", False]}]],
+                                     "edges": [[["0", "1"], {"e": ["b", False]}], [["1", "2"], {}]]}}),
+    ("D18-ids-around-2^63", None, {"G": {"directed": True, "nodes": [["5", {"x": ["f", f2h(1.5)]}], [str(TWO64 - 1), {"x": ["f", f2h(2.5)]}], ["7", {}],
+                                                             [str(TWO63 + 1), {}]],
+                                         "edges": [[["5", "7"], {"w": ["i", "1"]}], [["7", str(TWO64 - 1)], {}], [[str(TWO63 + 1), "5"], {}]]}}),
+    ("D21-int-values-mixed", None, {"G": {"directed": False, "nodes": [["1", {"p": ["i", str(TWO63 + 1)]}], ["2", {"p": ["i", "5"]}], ["3", {}]], "edges": []}}),
+    ("D21-int-values-fill", None, {"G": {"directed": False, "nodes": [["1", {"p": ["i", str(TWO64 - 1)]}], ["2", {}]], "edges": []}}),
+    ("D21-int-values-all-large", None, {"G": {"directed": False, "nodes": [["1", {"p": ["i", str(TWO63)]}], ["2", {"p": ["i", str(TWO64 - 1)]}]], "edges": []}}),
+    ("D21-list-values-mixed", None, {"G": {"directed": False, "nodes": [["1", {"p": ["a", [2], [["i", str(TWO63 + 1)], ["i", "2"]]]}], ["2", {"p": ["a", [2], [["i", "3"], ["i", "4"]]]}]], "edges": []}}),
+    ("ragged-big-mixed", "C03:ragged-int-values-ge-2^63",
+     {"G": {"directed": False, "nodes": [["1", {"p": ["a", [2], [["i", "1"], ["i", "2"]]]}], ["2", {"p": ["a", [3], [["i", str(TWO63 + 1)], ["i", "3"], ["i", "4"]]]}]], "edges": []}}),
+    ("ragged-big-all", "C03:ragged-int-values-ge-2^63",
+     {"G": {"directed": False, "nodes": [["1", {"p": ["a", [1], [["i", str(TWO63)]]]}], ["2", {"p": ["a", [2], [["i", str(TWO64 - 1)], ["i", str(TWO63)]]]}]], "edges": []}}),
+    ("ragged-big-elements-differ", "C03:ragged-int-values-ge-2^63",
+     {"G": {"directed": False, "nodes": [["1", {"p": ["a", [2], [["i", "1"], ["i", "2"]]]}], ["2", {"p": ["a", [3], [["i", str(TWO63 + 1)], ["i", str(TWO63)], ["i", str(TWO64 - 1)]]]}]], "edges": []}}),
+]
+
+
+def corpus():
+    d = common.VERIF / "harness" / "corpus" / PROP
+    for f in sorted(d.glob("*.json")):
+        yield json.loads(f.read_text())
+
+
+# ============================================================================ streams
+def _nontrivial_graph(G):
+    return bool(G["edges"]) or any(a for _, a in G["nodes"])
+
+
+def roundtrip_cases(rng, items, both_formats, exhaustive_rx=False):
+    cases = []
+    for k, it in enumerate(items):
+        fmts = (2, 3) if both_formats else (2 + k % 2,)
+        for fmt in fmts:
+            base = {"stream": "roundtrip", "G": it["G"], "fmt": fmt, "tag": it["tag"]}
+            for extra in ("axes", "readers", "malformed", "expect"):
+                if extra in it:
+                    base[extra] = it[extra]
+            cases.append({**base, "writer": "nx"})
+            if it.get("malformed") in ("neg-id",):
+                lays = [{"id_map": True, "holes": []}]
+            else:
+                lays = rx_variants(rng, it, exhaustive_rx or it["tag"].startswith(("exh", "special", "corpus")))
+            for lay in lays:
+                cases.append({**base, "writer": "rx", "layout": lay})
+    return cases
+
+
+def roundtrip_request(c):
+    G = c["G"]
+    req = {"axes": c["axes"]} if c.get("axes") else {}
+    if c["writer"] == "nx":
+        try:
+            g = obs_nx(build_nx(G))  # the edge order / orientation networkx reports is library behaviour
+        except Exception:  # noqa: BLE001
+            g = G
+        return {"op": "nxWrite", "g": g, **req}
+    g, nid = rx_json(G, c.get("layout", {}))
+    return {"op": "rxWrite", "g": g, "node_id_dict": nid, **req}
+
+
+def do_roundtrips(ck, drv, cases, stats):
+    res = common.pmap(impl_roundtrip, cases, chunksize=16)
+    model = drv.ask([roundtrip_request(c) for c in cases]) if drv else None
+    if drv and model is None:
+        ck.broken.append({"what": "driver Drivers/C03.lean (roundtrip)", "detail": drv.broken})
+    for k, (c, r) in enumerate(zip(cases, res)):
+        G = c["G"]
+        ck.case({"G": G, "writer": c["writer"], "layout": c.get("layout"), "fmt": c["fmt"]},
+                f"rt:{c['writer']}:{c['tag']}", nontrivial=_nontrivial_graph(G))
+        mo = model[k] if model else None
+        malformed = c.get("malformed")
+        # ---- specification
+        if not malformed:
+            if r["write"] != "ok":
+                ck.fail(classify(f"write:{c['writer']}", G, exc=r["write"]),
+                        f"geff.write({c['writer']}) raised {r['write']['exc']}: {r['write']['msg']}", c, r["write"], "written")
+            else:
+                for rd, o in r["reads"].items():
+                    if check_obs(ck, f"{c['writer']}->{rd}", c, G, o):
+                        a = r["adapters"].get(rd)
+                        if a is not None:
+                            check_obs(ck, f"adapter:{rd}", c, G, a)
+                # any two backends agree (implied by the above; counted separately)
+                obs = [canon(o) for o in r["reads"].values() if "exc" not in o]
+                stats["pairs_agree"] += sum(1 for a, b in itertools.combinations(obs, 2) if _same(a, b))
+        # ---- model
+        if mo is None:
+            continue
+        if "err" in mo:
+            ck.corr_broken("C03:driver", c, None, mo)
+            continue
+        st = cmp_outcome(ck, "C03:writeDicts", c, r["write"] if r["write"] != "ok" else _strip_mem(r["mem"]) if "exc" not in r.get("mem", {}) else r["mem"],
+                         mo["mem"], canonical=False)
+        stats["model_" + st] += 1
+        if st != "agree" or r["write"] != "ok":
+            continue
+        for rd, o in r["reads"].items():
+            conv = {"nx": (lambda x: x), "rx": rx_model_as_graph, "sg": (lambda x: sg_model_as_graph(x, c.get("axes") or []))}[rd]
+            st2 = cmp_outcome(ck, f"C03:{rd}Construct", c, o, mo.get(rd), conv=conv)
+            stats[f"model_{rd}_" + st2] += 1
+
+
+def do_constructs(ck, drv, cases, stats):
+    res = common.pmap(impl_construct, cases, chunksize=8)
+    model = drv.ask([{"op": "construct", "m": _strip_mem(c["M"]), "axes": c["M"].get("axes")} for c in cases]) if drv else None
+    if drv and model is None:
+        ck.broken.append({"what": "driver Drivers/C03.lean (construct)", "detail": drv.broken})
+    for k, (c, r) in enumerate(zip(cases, res)):
+        M = c["M"]
+        invalid = M.get("invalid")
+        ck.case(c, f"construct:{'sg-domain' if M.get('axes') else 'general'}{':' + invalid if invalid else ''}",
+                nontrivial=bool(M["node_props"] or M["edge_props"] or M["edge_ids"]))
+        G = mem_as_graph(M)
+        if not invalid:
+            for b, o in r["graphs"].items():
+                if check_obs(ck, f"construct:{b}", c, G, o):
+                    check_obs(ck, f"adapter:{b}", c, G, r["adapters"][b])
+            obs = [canon(o) for o in r["graphs"].values() if "exc" not in o]
+            stats["pairs_agree"] += sum(1 for a, b in itertools.combinations(obs, 2) if _same(a, b))
+        mo = model[k] if model else None
+        if mo is None:
+            continue
+        if "err" in mo:
+            ck.corr_broken("C03:driver", c, None, mo)
+            continue
+        for b, o in r["graphs"].items():
+            conv = {"nx": (lambda x: x), "rx": rx_model_as_graph, "sg": (lambda x: sg_model_as_graph(x, M.get("axes") or []))}[b]
+            if "unobservable" in o:
+                st = "agree" if "ok" in mo.get(b, {}) else "disagree"
+                if st == "disagree":
+                    ck.corr_broken(f"C03:{b}Construct", c, o, mo.get(b))
+            else:
+                st = cmp_outcome(ck, f"C03:{b}Construct", c, o, mo.get(b), conv=conv)
+            stats[f"model_{b}_" + st] += 1
+            if b == "rx" and st == "agree" and "rx_raw" in r:
+                R = mo["rx"]["ok"]
+                raw = {"directed": R["directed"], "nodes": [[str(i), a] for i, a in enumerate(R["slots"]) if a is not None],
+                       "edges": [[[str(e[0][0]), str(e[0][1])], e[1]] for e in R["edges"]]}
+                mp = sorted([str(i), int(x)] for i, x in R["id_map"])
+                if not _same(canon(raw), canon(r["rx_raw"]["raw"])) or mp != sorted(r["rx_raw"]["map"]):
+                    ck.corr_broken("C03:rxConstruct(raw indices, to_rx_id_map)", c, r["rx_raw"], {"raw": raw, "map": mp})
+
+
+def do_sg(ck, drv, cases, stats):
+    res = common.pmap(impl_sg_roundtrip, cases, chunksize=4)
+    # the order in which spatial-graph reports nodes and edges is library behaviour: the model is
+    # given the graph as built (same content as S — checked below — in the library's order)
+    model = drv.ask([{"op": "sgWrite", "g": sg_json(reorder_sg(c["S"], r.get("built"))), "axis_names": c["S"]["axes"]}
+                     for c, r in zip(cases, res)]) if drv else None
+    if drv and model is None:
+        ck.broken.append({"what": "driver Drivers/C03.lean (sg)", "detail": drv.broken})
+    for k, (c, r) in enumerate(zip(cases, res)):
+        S = c["S"]
+        G = sg_as_graph(S)
+        ck.case(c, f"rt:sg:ndims{S['ndims']}:{S['node_dtype']}", nontrivial=bool(S["nodes"]))
+        if r["write"] != "ok":
+            ck.fail(classify("write:sg", G, exc=r["write"]), f"geff.write(spatial-graph) raised {r['write']['exc']}: {r['write']['msg']}", c, r["write"], "written")
+        else:
+            check_obs(ck, "built:sg", c, G, r["built"])
+            for rd, o in r["reads"].items():
+                check_obs(ck, f"sg->{rd}", c, G, o)
+            obs = [canon(o) for o in r["reads"].values() if "exc" not in o]
+            stats["pairs_agree"] += sum(1 for a, b in itertools.combinations(obs, 2) if _same(a, b))
+        mo = model[k] if model else None
+        if mo is None:
+            continue
+        if "err" in mo:
+            ck.corr_broken("C03:driver", c, None, mo)
+            continue
+        st = cmp_outcome(ck, "C03:sgWrite", c, r["write"] if r["write"] != "ok" else _strip_mem(r["mem"]) if "exc" not in r.get("mem", {}) else r["mem"],
+                         mo["mem"], canonical=False)
+        stats["model_sgwrite_" + st] += 1
+        if st != "agree" or r["write"] != "ok":
+            continue
+        for rd, o in r["reads"].items():
+            conv = {"nx": (lambda x: x), "rx": rx_model_as_graph, "sg": (lambda x: sg_model_as_graph(x, S["axes"]))}[rd]
+            st2 = cmp_outcome(ck, f"C03:{rd}Construct", c, o, mo.get(rd), conv=conv)
+            stats[f"model_{rd}_" + st2] += 1
+
+
+def do_dicts(ck, drv, cases, stats):
+    res = common.pmap(impl_dict_props, cases, chunksize=64)
+    model = drv.ask([{"op": "dictProps", "data": c["data"], "names": c["names"]} for c in cases]) if drv else None
+    if drv and model is None:
+        ck.broken.append({"what": "driver Drivers/C03.lean (dictProps)", "detail": drv.broken})
+    for k, (c, r) in enumerate(zip(cases, res)):
+        ck.case(c, "dict_props_to_arr:" + ("mixed-kinds" if c["mixed"] else "uniform"), nontrivial=any(a for _, a in c["data"]))
+        if not c["mixed"]:
+            check_dict_props(ck, c, r)
+        mo = model[k] if model else None
+        if mo is None:
+            continue
+        impl = r if "exc" in r else r["props"]
+        st = cmp_outcome(ck, "C03:dictPropsToArr", c, impl, mo, canonical=False)
+        stats["model_dict_" + st] += 1
+
+
+def sg_cross_items(rng, n):
+    """sg-domain graphs written from networkx / rustworkx with axis names and read by all three"""
+    out = []
+    for k in range(n):
+        S = gen_sg(rng, SG_SCHEMAS[0] if k % 2 else SG_SCHEMAS[2], nmax=8)
+        if not S["nodes"]:
+            continue
+        out.append({"G": sg_as_graph(S), "tag": "cross-sg", "axes": S["axes"], "readers": ["nx", "rx", "sg"]})
+    # axes of different dtypes (int time, float space): spatial-graph has one position array
+    for k in range(2):
+        S = gen_sg(rng, SG_SCHEMAS[0], nmax=4)
+        if len(S["nodes"]) < 1:
+            continue
+        G = sg_as_graph(S)
+        for j, (_, a) in enumerate(G["nodes"]):
+            a[S["axes"][0]] = ["i", str(j + k)]
+        out.append({"G": G, "tag": "special:sg-mixed-axis-dtypes", "axes": S["axes"], "readers": ["nx", "rx", "sg"]})
+    return out
+
+
+# ============================================================================ the check
+def run(ck: common.Check):
+    import collections
+
+    ck.prove(["GeffProps.C03"])
+    ck.rule = ("cases = corpus + pinned defect witnesses + bounded-exhaustive attribute graphs (<=3 nodes, <=3 edges, every "
+               "presence subset of one property x kind in {bool,int,int>=2^63,mixed ints,float,str,list,2-d list,ragged,ragged 2-d} "
+               "x id sets {small,sparse,around 2^63,all >= 2^63} x directed/undirected) and seeded random graphs up to 30 nodes, each "
+               "written from networkx and from rustworkx (indices as ids with holes / explicit node_id_dict with holes) and read "
+               "back by every backend, zarr formats 2 and 3, MemoryStore; spatial-graph graphs of a fixed set of dtype signatures "
+               "written and read by all three; in-memory geffs (9 dtypes, scalar/vector/matrix/var-length, missing masks, 5 id "
+               "dtypes) constructed through every backend and its adapter; dict_props_to_arr called directly. non-trivial = at "
+               "least one attribute or edge; distinct = distinct canonical JSON of the case")
+    rng = ck.rng
+    drv = ck.driver()
+    if drv.exe is None:
+        ck.extra["driver"] = "interpreted (executable could not be built)"
+    stats = collections.Counter()
+    t0 = __import__("time").time()
+    sg_ok = sg_warm()
+    ck.extra["sg_warmup_s"] = round(__import__("time").time() - t0, 1)
+
+    # ---- A: networkx / rustworkx writers
+    items = [{"G": c["G"], "tag": "corpus:" + c.get("name", "?"), **{k: c[k] for k in ("axes", "readers") if k in c}} for c in corpus() if "G" in c]
+    items += [{"G": it["G"], "tag": "special:" + tag} for tag, _, it in SPECIAL]
+    items += gen_exhaustive(rng)
+    nrand = 400 if ck.quick else 6000
+    items += [gen_random_graph(rng) for _ in range(nrand)]
+    items += sg_cross_items(rng, 24 if ck.quick else 200)
+    items += [gen_malformed(rng) for _ in range(60 if ck.quick else 600)]
+    cases = roundtrip_cases(rng, items, both_formats=not ck.quick)
+    do_roundtrips(ck, drv, cases, stats)
+    ck.extra["exhaustive"] = "<=3 nodes / <=3 edges x presence subsets x 10 kinds x 4 id sets (the enumerated sub-space only)"
+
+    # ---- B: construct from one in-memory geff through every backend
+    nmem = 1200 if ck.quick else 12000
+    cm = [{"stream": "construct", "M": gen_mem(rng), "backends": ["nx", "rx"]} for _ in range(nmem)]
+    cm += [{"stream": "construct", "M": gen_mem(rng, sg_domain=True), "backends": ["nx", "rx", "sg"]} for _ in range(nmem // 8)]
+    cm += [{"stream": "construct", "M": gen_mem(rng, valid=False), "backends": ["nx", "rx"]} for _ in range(nmem // 8)]
+    cm += [{"stream": "construct", "M": c["M"], "backends": c.get("backends", ["nx", "rx"])} for c in corpus() if "M" in c]
+    do_constructs(ck, drv, cm, stats)
+
+    # ---- C: spatial-graph writer
+    nsg = 100 if ck.quick else 1000
+    cs = [{"stream": "sg", "S": gen_sg(rng, SG_SCHEMAS[k % len(SG_SCHEMAS)]), "fmt": 2 + (k // len(SG_SCHEMAS)) % 2} for k in range(nsg)]
+    cs += [{"stream": "sg", "S": c["S"], "fmt": c.get("fmt", 2)} for c in corpus() if "S" in c]
+    do_sg(ck, drv, cs, stats)
+
+    # ---- D: the dict -> array layer directly
+    nd = 3000 if ck.quick else 40000
+    cd = [{"stream": "dict", **gen_dict_case(rng)} for _ in range(nd)]
+    cd += [{"stream": "dict", **gen_dict_case(rng, mixed=True)} for _ in range(nd // 4)]
+    do_dicts(ck, drv, cd, stats)
+
+    ck.extra["correspondence"] = dict(sorted(stats.items()))
+    ck.extra["sg_signatures"] = len(SG_SCHEMAS)
+    if not sg_ok:
+        ck.broken.append({"what": "spatial-graph warm-up", "detail": "could not build the graph classes"})
+    ck.assumptions += [
+        "StoreRoundTrip: read_to_memory(write_arrays(m)) returns m up to the order of the properties (property C01's theorem); "
+        "exercised here on every round-trip case (the model's in-memory geff is compared with the one read back)",
+        "networkx / rustworkx / spatial-graph containers are modelled by the dict / list operations geff uses, not verified",
+        "numpy's dtype inference is the chain bool < {int64,uint64} < float64 < str < object; casts between kinds "
+        "(int -> float rounding, anything -> str) are outside the model and outside the property's domain (one kind per property)",
+        "domain: str values without trailing NUL characters (numpy's fixed-width unicode drops them); ragged lists of one "
+        "rank whose elements have the same numpy dtype individually (an empty Python list is float64); finite spatial-graph positions",
+    ]
+
+
+class _Collector:
+    """stand-in for common.Check in replay: records spec failures only"""
+    def __init__(self):
+        self.failures, self.broken = [], []
+
+    def fail(self, key, what, case, observed=None, expected=None):
+        self.failures.append({"key": key, "what": what, "observed": observed})
+
+    def corr_broken(self, *a):
+        pass
+
+    def case(self, *a, **k):
+        pass
+
+
+def replay(rp):
+    c = rp["case"]
+    ck = _Collector()
+    import collections
+
+    stats = collections.Counter()
+    stream = c.get("stream", "roundtrip")
+    if stream == "roundtrip":
+        if c.get("readers") and "sg" in c["readers"]:
+            sg_warm()
+        r = impl_roundtrip(c)
+        print(json.dumps({"write": r["write"], "reads": r.get("reads"), "adapters": r.get("adapters")})[:3000])
+        orig = common.pmap
+        common.pmap = lambda f, items, **k: [r]
+        try:
+            do_roundtrips(ck, None, [c], stats)
+        finally:
+            common.pmap = orig
+    elif stream == "construct":
+        if "sg" in c["backends"]:
+            sg_warm()
+        do_constructs(ck, None, [c], stats)
+    elif stream == "sg":
+        sg_warm()
+        do_sg(ck, None, [c], stats)
+    else:
+        do_dicts(ck, None, [c], stats)
+    for f in ck.failures:
+        print(f"  [{f['key']}] {f['what']}")
+    ok = not ck.failures
+    print("REPLAY: property holds on this input" if ok else "REPLAY: property FAILS on this input")
+    return 0 if ok else 1
